@@ -229,6 +229,15 @@ func (cb *CellBuffer) Fill(r rune, style Style) {
 	}
 	for i := range cb.cells {
 		c := &cb.cells[i]
+		if c.width > 1 && (c.currMain != r || len(c.currComb) > 0) {
+			// replacing a wide character: the cells it covered
+			// have to be redrawn as well
+			for j := 1; j < c.width; j++ {
+				if x := i%cb.w + j; x < cb.w {
+					cb.cells[i+j].lastMain = rune(0)
+				}
+			}
+		}
 		c.currMain = r
 		c.currComb = nil
 		cs := style
